@@ -108,6 +108,9 @@ def case_names(case):
 
 
 def specs_of(case):
+    if case.get("empty_first") and not case["layout"]:
+        rest = specs_of(dict(case, empty_first=False))
+        return [{"line": "", "names": [], "scheme": None, "ln": None}] + rest
     if case["layout"]:
         return [{"line": "\t".join(r), "names": None, "scheme": ["builtin", case["layout"]], "ln": None}
                 for r in case["rows"]]
@@ -147,6 +150,8 @@ PLAIN_NAMESETS = [
     [N_CHROM, N_START, N_END], [N_TUMOR, N_NORMAL, N_CHROM, N_START, N_END, "Other"],
     ["n" + str(i) for i in range(12)],
 ]
+WIDE = [257, 258, 300, 1000]          # int objects above 256 are not shared: identity comparisons of indexes break there
+
 
 
 def order_rows(rng, names, rows, order, contigs, typed):
@@ -223,6 +228,8 @@ def gen_plain_case(rng, stream):
     flavour = rng.choice(["none", "none", "unknown-version", "norestr", "unknown-annot", "annot-only"])
     order = rng.choice([None, None, None, "Coordinate", "BarcodesAndCoordinate", "Unsorted", "Unknown"])
     names = list(rng.choice(PLAIN_NAMESETS))
+    if rng.random() < 0.06:
+        names = ["w%d" % i for i in range(rng.choice(WIDE[:3] if rng.random() < 0.85 else WIDE))]
     if order in SORTABLE and rng.random() < 0.7:
         names = list(rng.choice(PLAIN_NAMESETS[-3:-1]))
     contigs = None
@@ -323,6 +330,57 @@ def generate(rng, n):
     return out[:max(n, 1)]
 
 
+def header_edit_for(rng, case):
+    """the header object starts out as `pre` (used once: scheme() asked, validated), then its annotation.spec
+    record is replaced or deleted in place so that it becomes the header of case["hlines"]"""
+    hl = case["hlines"]
+    idx = [i for i, l in enumerate(hl) if l.startswith("#annotation.spec ")]
+    kept, _ = R.spec_header(hl)
+    keys = [k for (_, k, _) in kept]
+    if len(idx) == 1 and keys.count("annotation.spec") == 1 and hl[idx[0]].rstrip() == hl[idx[0]]:
+        other = rng.choice([a for a in ANNOTS if a != "gdc-1.0.0" and ("#annotation.spec " + a) != hl[idx[0]]])
+        pre = list(hl)
+        pre[idx[0]] = "#annotation.spec " + other
+        return {"how": "replace", "pre": pre, "value": hl[idx[0]][len("#annotation.spec "):]}
+    if not idx and "annotation.spec" not in keys:
+        return {"how": "delete", "pre": list(hl) + ["#annotation.spec " + rng.choice([a for a in ANNOTS if a != "gdc-1.0.0"])]}
+    return None
+
+
+NONCANON = {
+    # kind -> (does the documented domain of the column fit, the field text the row gets)
+    "str-int": (lambda d: d["k"] == "textorint", lambda rng: rng.choice(["01", "+1", " 7", "1_0", "007"])),
+    "empty-str": (lambda d: d["k"] == "text" and d.get("null") == "", lambda rng: ""),
+    "int-zero": (lambda d: d["k"] == "entrez", lambda rng: "0"),
+    "single-null": (lambda d: d["k"] == "seq" and d["elem"].get("k") == "enum" and bool(d["elem"].get("nulls")),
+                    lambda rng: ""),
+}
+
+
+def api_plan(rng, case):
+    """records built with the column constructors: canonical values everywhere (what parsing the row text gives),
+    except at most one cell holding a value a constructor accepts but parsing never produces:
+      str-int      StringOrIntegerColumn holding the str '01' (parsing gives the int 1)
+      empty-str    NullableStringColumn holding '' (parsing gives None)
+      int-zero     EntrezGeneId holding the int 0 (parsing gives None)
+      single-null  SequenceOfNullableYesOrNo holding [Null] (parsing '' gives [])"""
+    plan = {"noncanon": None}
+    if rng.random() < 0.5:
+        cols = SP.layout(case["layout"])["columns"]
+        kind = rng.choice(sorted(NONCANON))
+        fits, text = NONCANON[kind]
+        js = [j for j, (n, d) in enumerate(cols) if fits(d) and n not in (N_CHROM, N_START, N_END, N_TUMOR, N_NORMAL)]
+        if kind == "str-int":
+            js = [j for j, (n, d) in enumerate(cols) if fits(d)]
+        _, order, _ = _declared(case)
+        if js and not (kind == "str-int" and order in SORTABLE):
+            i, j = rng.randrange(len(case["rows"])), rng.choice(js)
+            if len(case["rows"][i]) == len(cols):
+                case["rows"][i][j] = text(rng)
+                plan["noncanon"] = [i, j, kind]
+    return plan
+
+
 def add_scenarios(rng, case):
     """history-dependent scenarios on top of a case (the model sees only the final rows):
     overwrite - the output paths already hold an earlier MAF written by the library, and the second write of the
@@ -330,6 +388,9 @@ def add_scenarios(rng, case):
     sibling   - a second writer on another path / handle is alive during the first write: "first" / "last": fed
                 alternately and closed before / after the writer under test; "abandon": fed before it is created and
                 never closed;
+    empty_first - a MafRecord() without columns is handed to the scheme-less writer first (refused with ValueError);
+    hdr_edit  - the header object was used under another annotation.spec, whose record is then replaced / deleted;
+    api       - the records are built with the column constructors (see api_plan);
     stale     - [[row, column, earlier text, how]]: the record is first built with the earlier text in that cell and
                 rendered (str(record)), then the cell is edited in place to its final text ("value": assign
                 column.value; "replace": record[name] = a new column) before it is handed to the writer"""
@@ -337,6 +398,14 @@ def add_scenarios(rng, case):
         case["overwrite"] = True
     if case["rows"] and rng.random() < 0.3:
         case["sibling"] = rng.choice(["first", "last", "abandon"])
+    if not case["layout"] and rng.random() < 0.12:
+        case["empty_first"] = True
+    if rng.random() < 0.15:
+        e = header_edit_for(rng, case)
+        if e:
+            case["hdr_edit"] = e
+    if case["layout"] and case["rows"] and not case.get("stale") and rng.random() < 0.25:
+        case["api"] = api_plan(rng, case)
     if case["rows"] and rng.random() < 0.3:
         names = case_names(case)
         cols = SP.layout(case["layout"])["columns"] if case["layout"] else None
@@ -395,6 +464,12 @@ def _single_null_row():
     return row
 
 
+def _with(row, j, text):
+    row = list(row)
+    row[j] = text
+    return row
+
+
 def corpus():
     return [
         # repaired defect (regress seed C02-uncarriable-names): a scheme-less first column name starting with '#' was
@@ -415,6 +490,38 @@ def corpus():
          "names": None, "rows": _typed_rows()[:2], "overwrite": True},
         {"stream": "corpus", "hlines": ["#k v"], "mode": "Silent", "layout": None, "names": ["a", "b"],
          "rows": [["1", ""]], "overwrite": True},
+        # repaired defect (regress seed C06-empty-first-record): a first record without columns is refused
+        {"stream": "corpus", "hlines": [], "mode": "Silent", "layout": None, "names": ["a", "b"],
+         "rows": [["1", "2"], ["3", "4"]], "empty_first": True},
+        # more than 256 columns without a scheme
+        {"stream": "corpus", "hlines": [], "mode": "Silent", "layout": None, "names": ["w%d" % i for i in range(258)],
+         "rows": [[str(i) for i in range(258)]]},
+        {"stream": "corpus", "hlines": ["#k v"], "mode": "Silent", "layout": None, "names": ["w%d" % i for i in range(1000)],
+         "rows": [["" if i % 7 == 0 else "v%d" % i for i in range(1000)]]},
+        # a header used under another annotation, whose pragma is then replaced / deleted in place
+        {"stream": "corpus", "hlines": ["#version gdc-1.0.0", "#annotation.spec gdc-1.0.0-public"], "mode": "Strict",
+         "layout": "gdc-1.0.0-public", "names": None, "rows": [],
+         "hdr_edit": {"how": "replace", "pre": ["#version gdc-1.0.0", "#annotation.spec gdc-1.0.0-protected"],
+                      "value": "gdc-1.0.0-public"}},
+        {"stream": "corpus", "hlines": ["#version gdc-1.0.0"], "mode": "Strict", "layout": "gdc-1.0.0", "names": None,
+         "rows": _typed_rows()[:1],
+         "hdr_edit": {"how": "delete", "pre": ["#version gdc-1.0.0", "#annotation.spec gdc-1.0.0-protected"]}},
+        {"stream": "corpus", "hlines": ["#k v"], "mode": "Silent", "layout": None, "names": ["a"], "rows": [],
+         "hdr_edit": {"how": "delete", "pre": ["#k v", "#annotation.spec gdc-1.0.0-public"]}},
+        # records built with the column constructors: canonical values round-trip ...
+        {"stream": "corpus", "hlines": ["#version gdc-1.0.0"], "mode": "Strict", "layout": "gdc-1.0.0", "names": None,
+         "rows": _typed_rows()[:2], "api": {"noncanon": None}},
+        # ... known findings: a Strict writer accepts constructor-given values that parsing their rendering never gives
+        {"stream": "corpus", "hlines": ["#version gdc-1.0.0"], "mode": "Strict", "layout": "gdc-1.0.0", "names": None,
+         "rows": [_with(_typed_rows()[0], 4, "01")], "api": {"noncanon": [0, 4, "str-int"]}},
+        {"stream": "corpus", "hlines": ["#version gdc-1.0.0"], "mode": "Strict", "layout": "gdc-1.0.0", "names": None,
+         "rows": [_with(_typed_rows()[0], 30, "")], "api": {"noncanon": [0, 30, "empty-str"]}},
+        {"stream": "corpus", "hlines": ["#version gdc-1.0.0"], "mode": "Strict", "layout": "gdc-1.0.0", "names": None,
+         "rows": [_with(_typed_rows()[0], 1, "0")], "api": {"noncanon": [0, 1, "int-zero"]}},
+        {"stream": "corpus", "hlines": ["#version gdc-1.0.0", "#annotation.spec gdc-1.0.0-protected"], "mode": "Strict",
+         "layout": "gdc-1.0.0-protected", "names": None,
+         "rows": [_with(_single_null_row(), layout_names("gdc-1.0.0-protected").index("SOMATIC"), "")],
+         "api": {"noncanon": [0, layout_names("gdc-1.0.0-protected").index("SOMATIC"), "single-null"]}},
         # two writers alive at once, fed alternately: each file holds its own records only
         {"stream": "corpus", "hlines": ["#k v"], "mode": "Silent", "layout": None, "names": ["a", "b"],
          "rows": [["1", "2"], ["3", ""]], "sibling": "last"},
@@ -449,17 +556,31 @@ def _restale(case, drop_row=None, drop_col=None):
     return out
 
 
+def _reapi(case, drop_row):
+    a = case.get("api")
+    if not a or not a.get("noncanon"):
+        return a
+    i, j, kind = a["noncanon"]
+    if i == drop_row:
+        return {"noncanon": None}
+    return {"noncanon": [i - (1 if i > drop_row else 0), j, kind]}
+
+
 def shrink(case):
     if case.get("overwrite"):
         yield dict(case, overwrite=False)
     if case.get("sibling"):
         yield dict(case, sibling=None)
+    if case.get("hdr_edit"):
+        yield dict(case, hdr_edit=None)
+    if case.get("empty_first"):
+        yield dict(case, empty_first=False)
     st = case.get("stale", [])
     for k in range(len(st)):
         yield dict(case, stale=st[:k] + st[k + 1:])
     rows = case["rows"]
     for i in range(len(rows)):
-        yield dict(case, rows=rows[:i] + rows[i + 1:], stale=_restale(case, drop_row=i))
+        yield dict(case, rows=rows[:i] + rows[i + 1:], stale=_restale(case, drop_row=i), api=_reapi(case, i))
     hl = case["hlines"]
     for i in range(len(hl)):
         yield dict(case, hlines=hl[:i] + hl[i + 1:])
@@ -508,8 +629,8 @@ def _workdir():
 def _build_inputs(case):
     from maflib.header import MafHeader
     from maflib.record import MafRecord
-    h = MafHeader.from_lines(list(case["hlines"]), validation_stringency=R.py_mode("Silent"))
-    specs = specs_of(case)
+    h = _build_header(case)
+    specs = specs_of(dict(case, empty_first=False))
     recs = [MafRecord.from_line(validation_stringency=R.py_mode("Silent"), **R._recspec_args(s)) for s in specs]
     names = case_names(case)
     stale = [e for e in case.get("stale", []) if e[0] < len(case["rows"]) and e[1] < len(names)
@@ -535,7 +656,61 @@ def _build_inputs(case):
                 r[names[j]].value = fresh.value
         if ok:
             recs[i] = r
+    if case.get("api") and case["layout"]:
+        recs = [_api_record(r, names, (case["api"].get("noncanon") if case["api"].get("noncanon") and
+                                         case["api"]["noncanon"][0] == i else None), case["rows"][i])
+                for i, r in enumerate(recs)]
+    if case.get("empty_first") and not case["layout"]:
+        recs = [MafRecord()] + recs
     return h, recs
+
+
+def _build_header(case):
+    from maflib.header import MafHeader, MafHeaderAnnotationSpecRecord
+    from maflib.writer import MafWriter
+    e = case.get("hdr_edit")
+    if e:
+        h = MafHeader.from_lines(list(e["pre"]), validation_stringency=R.py_mode("Silent"))
+        if "annotation.spec" in h:
+            h.scheme()                                   # used once under the earlier pragma
+            try:
+                MafWriter.from_fd(io.StringIO(), header=h, validation_stringency=R.py_mode("Silent")).close()
+            except Exception:  # noqa
+                pass
+            if e["how"] == "replace":
+                h["annotation.spec"] = MafHeaderAnnotationSpecRecord(value=e["value"])
+            else:
+                del h["annotation.spec"]
+            return h
+    return MafHeader.from_lines(list(case["hlines"]), validation_stringency=R.py_mode("Silent"))
+
+
+def _class_family(c):
+    return [k.__name__ for k in type(c).__mro__]
+
+
+def _api_record(parsed, names, noncanon, row):
+    """the same record built with the column constructors (values as parsed; one cell possibly non-canonical)"""
+    from maflib.record import MafRecord
+    if parsed.validation_errors or len(parsed) != len(names) or any(parsed[j] is None for j in range(len(names))):
+        return parsed
+    r = MafRecord()
+    for j, n in enumerate(names):
+        c = parsed[j]
+        v = c.value
+        if noncanon is not None and noncanon[1] == j:
+            fam, kind = _class_family(c), noncanon[2]
+            if kind == "str-int" and "StringOrIntegerColumn" in fam:
+                v = row[j]
+            elif kind == "empty-str" and "NullableStringColumn" in fam and "RequireNullValue" not in fam:
+                v = ""
+            elif kind == "int-zero" and "EntrezGeneId" in fam:
+                v = 0
+            elif kind == "single-null" and "SequenceOfNullableYesOrNo" in fam:
+                from maflib.column_values import NullableYesOrNoEnum
+                v = [NullableYesOrNoEnum.Null]
+        r[n] = type(c)(key=n, value=v, column_index=j)
+    return r
 
 
 def _column_text(r):
@@ -661,6 +836,7 @@ def _channel(case, channel, wd):
     p1, p2 = os.path.join(wd, channel + "1" + ext), os.path.join(wd, channel + "2" + ext)
     h, recs = _build_inputs(case)
     orig = {"texts": [], "values": [[H.enc_value(v) for v in r.column_values()] for r in recs],
+            "classes": [[(type(c).__name__ if c is not None else None) for c in r.values()] for r in recs],
             "parse_errs": [R.c_errs(r.validation_errors) for r in recs]}
     for r in recs:
         try:
@@ -882,6 +1058,49 @@ def _value_diff_shape(orig, got, texts):
     return "/single-null-element-list" if shapes == {"single-null-element-list"} else ""
 
 
+def _api_diff_families(orig, got, texts):
+    """one label per class of a differing cell: api-built-noncanonical/<class> when the given value is one of the
+    known constructor-accepted values parsing never produces, api-built/<class> for anything else"""
+    fams = []
+    for i, (a, b) in enumerate(zip(orig["values"], got)):
+        fields = texts[i].split("\t")
+        for j, (x, y) in enumerate(zip(a, b)):
+            if x == y:
+                continue
+            cls = orig["classes"][i][j]
+            known = ((cls == "StringOrIntegerColumn" and x[0] == 4 and y[0] == 2)
+                     or (cls == "NullableStringColumn" and x == [4, ""] and y == [0])
+                     or (cls == "EntrezGeneId" and x == [2, 0] and y == [0])
+                     or (cls == "SequenceOfNullableYesOrNo" and x[0] == 7 and len(x[1]) == 1 and y == [7, []]
+                         and j < len(fields) and fields[j] == ""))
+            lab = ("api-built-noncanonical/%s" if known else "api-built/%s") % cls
+            if lab not in fams:
+                fams.append(lab)
+        if len(a) != len(b) and "api-built/length" not in fams:
+            fams.append("api-built/length")
+    return fams
+
+
+def _text_diff_is_str_int(orig, got, i, rt, t):
+    """record i's text differs from the re-read text only in cells of class StringOrIntegerColumn that were given a
+    str and came back as an int (the int renders canonically)"""
+    a, b = t.split("\t"), rt.split("\t")
+    if len(a) != len(b) or i >= len(got):
+        return False
+    for j, (x, y) in enumerate(zip(a, b)):
+        if x != y:
+            if not (orig["classes"][i][j] == "StringOrIntegerColumn" and orig["values"][i][j][0] == 4
+                    and j < len(got[i]) and got[i][j][0] == 2):
+                return False
+    return True
+
+
+def skip_compare(case):
+    """directly constructed column values are not expressible in the extracted run (its records come from
+    from_line); the api-built stream is judged by the oracle only"""
+    return bool(case.get("api"))
+
+
 def oracle(case, obs):
     if not premise(case, obs):
         return []
@@ -917,24 +1136,35 @@ def oracle(case, obs):
         if len(rd["recs"]) != len(texts):
             out.append("record-count %d-for-%d %s" % (len(rd["recs"]), len(texts), ch))
         else:
+            folded = False
             for i, (r, t) in enumerate(zip(rd["recs"], texts)):
                 rt = None if any(s is None or s[2] is None for s in r["slots"]) else "\t".join(s[2] for s in r["slots"])
                 if rt != t:
+                    if case.get("api") and rt is not None and _text_diff_is_str_int(obs["orig"], o["values"], i, rt, t):
+                        folded = True       # the text consequence of the known str-for-int value (reported below)
+                        continue
                     out.append("record-text-differs %s" % ch)
                     break
             if any(r["errs"] for r in rd["recs"]):
                 out.append("reread-record-has-errors %s" % ch)
             if case["layout"] and o["values"] != obs["orig"]["values"]:
-                out.append("typed-value-differs%s %s" % (_value_diff_shape(obs["orig"]["values"], o["values"], texts), ch))
+                if case.get("api"):
+                    for fam in _api_diff_families(obs["orig"], o["values"], texts):
+                        out.append("typed-value-differs/%s %s" % (fam, ch))
+                else:
+                    out.append("typed-value-differs%s %s" % (_value_diff_shape(obs["orig"]["values"], o["values"], texts), ch))
         lines = o["text"].split("\n")
         if lines[-1] != "" or lines[:-1] != pragmas + (["\t".join(names)] if (case["rows"] or case["layout"]) else []) + texts:
             out.append("file-is-not-header-columns-records %s" % ch)
         if o["second"] is None or o["second"]["text"] != o["text"]:
-            out.append("second-write-differs %s" % ch)
+            if not (case.get("api") and rd["init"][0] == "ok" and len(rd["recs"]) == len(texts) and locals().get("folded")):
+                out.append("second-write-differs %s" % ch)
     return out
 
 
 def signature(case, violation):
+    if violation.startswith("typed-value-differs/api-built"):
+        return violation.split(" ")[0]
     if not case["layout"] and case["names"]:
         if case["names"][0].startswith("#") and not any(c in n for n in case["names"] for c in "\t\r\n"):
             return HASH_SIG
